@@ -69,6 +69,13 @@ theorem C13_step_WF {g : GL} (h : g.WF) (op : Op) (hv : Valid g op) : (step g op
     · rename_i g' heq; exact sortBy_WF' heq
     · exact h
   | replaceLeader l m => exact replaceLeader_WF' h l m hv
+  | groupNan d k =>
+    cases d <;> cases k
+    · exact group_WF' h _ _
+    · show (if _ then _ else _ : GL × Option Err).1.WF'
+      split <;> exact h
+    · exact h
+    · exact h
 
 /-- A history is valid when each operation is valid in the state it is applied to. -/
 def ValidRun : GL → List Op → Prop
@@ -376,6 +383,13 @@ theorem C13_values_monotone {g : GL} (h : g.WF) (op : Op) (hv : Valid g op)
               exact ⟨Or.inl ⟨hx, fun e => hmk (e ▸ mem_keys_of_mem hx)⟩, hxl⟩
           dsimp only
           split <;> exact goal
+  | groupNan d k =>
+    cases d <;> cases k
+    · exact group_values h _ _ v hmem
+    · show v ∈ (if _ then _ else _ : GL × Option Err).1.values
+      split <;> exact hmem
+    · exact hmem
+    · exact hmem
 
 /-- `update` keeps every value as long as each overwritten group is re-listed in the new dict. -/
 theorem C13_values_monotone_update {g : GL} (h : g.WF) (d : Dict) (hd : ValidUpdate g d)
